@@ -23,7 +23,7 @@ runs) into a tree whose AST is the original one.  The level table is the parser'
 `TablesG.impl_gen_prec_is_parser_prec` ties the generator's `precedence_map` to it. -/
 theorem binary_parenthesisation_sufficient (rp : Bool) (t : BT) (h : AllOps binPrec t)
     (k : List PT) (hk : StopAt binPrec 0 k) :
-    ∃ f0, ∀ f, f0 ≤ f →
+    ∀ f, 2 * (genP binPrec rp t).size ≤ f →
       ∃ t', climb binPrec f 0 none ((genP binPrec rp t).toks ++ k) = some (t', k) ∧ toVal t' = toVal t :=
   generated_reparses binPrec rp t h k hk
 
